@@ -1676,6 +1676,7 @@ static string opLts(const vector<string>& a)
 #include "ops/op_cacheh.inc"
 #include "ops/op_glue.inc"
 #include "ops/op_cliargs.inc"
+#include "ops/op_ltsutil.inc"
 
 // ---------------------------------------------------------------- API sweep (C20): every remaining public entry point of the four
 // encodings is called once on well-formed operands; each call may complete ('R'), throw NotImplementedException ('N') or
@@ -1816,6 +1817,7 @@ static string runCase(const string& kind, const vector<string>& args)
 	if (kind == "cacheh") return opCacheh(args);
 	if (kind == "glue") return opGlue(args);
 	if (kind == "cliargs") return opCliargs(args);
+	if (kind == "ltsutil") return opLtsutil(args);
 	return "BADKIND";
 }
 
